@@ -142,6 +142,8 @@ def check(run):
                                       f"the base topology always names '{v}', but a grid built from Cartesian node coordinates only has no such variables until node_lon is requested: "
                                       "the exported metadata then names variables absent from the dataset")
     # ---- non-serialisable attrs on variables stored in _ds
+    stripped = _attrs_stripped_by_encoder(P, f)
+    run.stats["attrs_stripped_by_ugrid_encoder"] = sorted(f"{v}.{k}" for v, k in stripped)
     n_attr = 0
     for g in P.all_functions():
         if g.module.relpath not in ("uxarray/grid/connectivity.py", "uxarray/grid/geometry.py", "uxarray/grid/coordinates.py", "uxarray/grid/neighbors.py", "uxarray/grid/grid.py"):
@@ -183,6 +185,12 @@ def check(run):
                                     if isinstance(vv, ast.Call):
                                         bad.append((kname, f"array from {norm(vv.func)}"))
                 c = f"{g.key}:attrs[{key}]"
+                kept = [b for b in bad if (key, b[0]) not in stripped]
+                if bad and not kept:
+                    run.holds("F-KIND/serialisable-attrs", c, where(g, st),
+                              f"helper attribute(s) {[b[0] for b in bad]} of '{key}' are removed from the exported copy by _encode_ugrid")
+                    continue
+                bad = kept
                 if bad:
                     run.violation("F-KIND/serialisable-attrs", c, where(g, st),
                                   f"variable '{key}' is stored in the grid dataset with non-serialisable attribute(s) {bad}: Grid.to_xarray().to_netcdf() fails once this variable has been built")
@@ -206,3 +214,60 @@ def check(run):
             run.holds("F-PATH/accumulation", c, where(e, s), f"offset accumulates: {norm(s)}")
         else:
             run.violation("F-PATH/accumulation", c, where(e, s), f"'{norm(s)}' overwrites the running block offset instead of adding to it: with three or more element blocks the third block repeats/skips faces")
+
+
+def _attrs_stripped_by_encoder(P, f):
+    """(variable, attribute) pairs that _encode_ugrid removes from the dataset it returns.
+
+    Recognised forms (semantic, not textual):
+      for V, HS in <module-level dict {var: (attr, ...)}>.items():
+          [if V in ds:]  ds[V].attrs = {k: v for k, v in ds[V].attrs.items() if k not in HS}
+      del ds["var"].attrs["k"]      /     ds["var"].attrs.pop("k"[, ...])"""
+    out = set()
+    dsname = f.params()[0]
+
+    def is_attrs_of(node, var_expr_pred):
+        return (isinstance(node, ast.Attribute) and node.attr == "attrs" and isinstance(node.value, ast.Subscript)
+                and isinstance(node.value.value, ast.Name) and node.value.value.id == dsname and var_expr_pred(node.value.slice))
+
+    for st in iter_stmts(f.node.body):
+        if isinstance(st, ast.For) and isinstance(st.target, ast.Tuple) and len(st.target.elts) == 2 and all(isinstance(e, ast.Name) for e in st.target.elts):
+            it = st.iter
+            if not (isinstance(it, ast.Call) and isinstance(it.func, ast.Attribute) and it.func.attr == "items" and not it.args):
+                continue
+            r = P.resolve_expr(f.module, it.func.value, f)
+            table = P.const_value(r) if isinstance(r, ConstInfo) else None
+            if not isinstance(table, dict):
+                continue
+            vname, hname = st.target.elts[0].id, st.target.elts[1].id
+            for s2 in iter_stmts(st.body):
+                if not (isinstance(s2, ast.Assign) and len(s2.targets) == 1):
+                    continue
+                t, v = s2.targets[0], s2.value
+                if not is_attrs_of(t, lambda sl: isinstance(sl, ast.Name) and sl.id == vname):
+                    continue
+                if not (isinstance(v, ast.DictComp) and len(v.generators) == 1):
+                    continue
+                gen = v.generators[0]
+                src_ok = (isinstance(gen.iter, ast.Call) and isinstance(gen.iter.func, ast.Attribute) and gen.iter.func.attr == "items"
+                          and is_attrs_of(gen.iter.func.value, lambda sl: isinstance(sl, ast.Name) and sl.id == vname))
+                tgt_ok = isinstance(gen.target, ast.Tuple) and len(gen.target.elts) == 2 and all(isinstance(e, ast.Name) for e in gen.target.elts)
+                if not (src_ok and tgt_ok):
+                    continue
+                kk, vv = gen.target.elts[0].id, gen.target.elts[1].id
+                ident = isinstance(v.key, ast.Name) and v.key.id == kk and isinstance(v.value, ast.Name) and v.value.id == vv
+                filt = any(isinstance(c, ast.Compare) and len(c.ops) == 1 and isinstance(c.ops[0], ast.NotIn) and isinstance(c.left, ast.Name) and c.left.id == kk
+                           and isinstance(c.comparators[0], ast.Name) and c.comparators[0].id == hname for c in gen.ifs)
+                if ident and filt and len(gen.ifs) == 1:
+                    for var, helpers in table.items():
+                        if isinstance(var, str) and isinstance(helpers, (tuple, list, set, frozenset)):
+                            out |= {(var, h) for h in helpers if isinstance(h, str)}
+        elif isinstance(st, ast.Delete):
+            for t in st.targets:
+                if isinstance(t, ast.Subscript) and str_const(t.slice) and is_attrs_of(t.value, lambda sl: str_const(sl) is not None):
+                    out.add((str_const(t.value.value.slice), str_const(t.slice)))
+        elif isinstance(st, ast.Expr) and isinstance(st.value, ast.Call) and isinstance(st.value.func, ast.Attribute) and st.value.func.attr == "pop":
+            recv = st.value.func.value
+            if st.value.args and str_const(st.value.args[0]) and is_attrs_of(recv, lambda sl: str_const(sl) is not None):
+                out.add((str_const(recv.value.slice), str_const(st.value.args[0])))
+    return out
